@@ -265,9 +265,38 @@ def run_obligation(ob, findings, seed=0):
     return out
 
 
+CURRENT_PROP = [None]
+
+
 def _replay(ob, values, label=None):
     """Run the harness body on the concrete values, unshimmed.  The violation
-    reproduces only if the SAME labelled property fails concretely."""
+    reproduces only if the SAME labelled property fails concretely.  If it does
+    not reproduce in this process (whose module state earlier symbolic paths
+    may have touched: caches, module-level containers), the replay is repeated
+    once in a fresh interpreter, which is what a user's run looks like."""
+    rep = _replay_here(ob, values, label)
+    if rep["reproduced"] or os.environ.get("SYMX_FRESH_REPLAY") == "0" or CURRENT_PROP[0] is None or label is None:
+        return rep
+    import subprocess
+    import tempfile
+
+    with tempfile.NamedTemporaryFile("w", suffix=".json", delete=False) as f:
+        json.dump({"property": CURRENT_PROP[0], "obligation": ob.name, "case": _jsonable(ob.case), "label": label, "values": _jsonable(values)}, f)
+    try:
+        env = dict(os.environ, SYMX_FRESH_REPLAY="0")
+        r = subprocess.run([sys.executable, "-m", "symx.cli", CURRENT_PROP[0], "--replay", f.name], cwd=VERIF, env=env, capture_output=True, text=True, timeout=600)
+        if r.returncode == EXIT_VIOLATION:
+            detail = [ln.strip() for ln in r.stdout.splitlines() if ln.startswith("  ")]
+            return {"reproduced": True, "detail": ("fresh interpreter: " + (detail[0] if detail else ""))[:500]}
+        rep["detail"] += f" [fresh interpreter: {r.stdout.strip()[-200:]}]"
+    except Exception as e:  # noqa: BLE001
+        rep["detail"] += f" [fresh-interpreter replay failed: {type(e).__name__}]"
+    finally:
+        os.unlink(f.name)
+    return rep
+
+
+def _replay_here(ob, values, label=None):
     try:
         vs = core.replay(lambda e: ob.bound(e), values)
     except Exception as e:  # noqa: BLE001
@@ -352,6 +381,7 @@ def run_check(prop, tier, obligations, encoded_funcs=(), stubs=(), bounds=(), ou
     seed = int(os.environ.get("VERIF_SEED", "0") or 0)
     findings = load_known(prop)
     _OBS, _FINDINGS, _SEED = obligations, findings, seed
+    CURRENT_PROP[0] = prop
     if seed:
         import random
 
@@ -506,8 +536,10 @@ def run_replay(prop, path, obligations):
             print("replay did not reproduce")
             return EXIT_OK
         if ob.name == data["obligation"]:
+            if "case" in data and json.loads(json.dumps(_jsonable(ob.case))) != data["case"]:
+                continue
             vals = _unjson_values(data["values"])
-            rep = _replay(ob, vals)
+            rep = _replay_here(ob, vals, data.get("label"))
             if rep["reproduced"]:
                 print(f"VIOLATION property={prop} replay={path}")
                 print("  " + rep["detail"])
